@@ -219,6 +219,27 @@ def _arctan2(y, x):
     return out
 
 
+def _minmax(is_min):
+    def f(a, b, *rest, **k):
+        if _is_larray(a) or _is_larray(b):
+            from . import lnp
+            return (lnp.minimum if is_min else lnp.maximum)(a, b)
+        if not (has_sym(a) or has_sym(b)):
+            return (_np.minimum if is_min else _np.maximum)(_demote(a) if isinstance(a, _np.ndarray) else a, _demote(b) if isinstance(b, _np.ndarray) else b, *rest, **k)
+        from . import larray
+        aa, bb = _np.broadcast_arrays(obj(a), obj(b))
+        out = _np.empty(aa.shape, dtype=object)
+        for idx in _np.ndindex(*aa.shape):
+            out[idx] = (larray.s_min if is_min else larray.s_max)(aa[idx], bb[idx])     # if-then-else, no path fork
+        return out if out.ndim else out[()]
+    return f
+
+
+def _eye(n, *a, **k):
+    r = _np.eye(n, *a, **k)
+    return r.astype(object) if "dtype" not in k else r
+
+
 class _Linalg:
     def __getattr__(self, name):
         return getattr(_np.linalg, name)
@@ -243,7 +264,21 @@ class _Linalg:
     def inv(a):
         if not has_sym(a):
             return _np.linalg.inv(_demote(a) if isinstance(a, _np.ndarray) else a)
-        raise Unsupported("linalg.inv on symbolic matrix")
+        A = obj(a)
+        n = A.shape[0]
+        # pure translation [[I, t], [0, 1]] -> [[I, -t], [0, 1]]
+        ok = A.shape == (n, n)
+        for i in range(n):
+            for j in range(n - 1):
+                v = A[i, j]
+                if is_sym(v) or float(v) != (1.0 if i == j else 0.0):
+                    ok = False
+        if ok and not is_sym(A[n - 1, n - 1]) and float(A[n - 1, n - 1]) == 1.0:
+            out = A.copy()
+            for i in range(n - 1):
+                out[i, n - 1] = -A[i, n - 1]
+            return out
+        raise Unsupported("linalg.inv on a symbolic matrix that is not a translation")
 
 
 class _Random:
@@ -258,6 +293,9 @@ def _creation(name):
         dt = k.get("dtype", a[0] if (a and name != "full") else None)
         if name == "full":
             fill = a[0] if a else k.get("fill_value")
+            if has_sym(shape) or (STATE["lazy"] and isinstance(shape, (tuple, list, _np.ndarray)) and len(shape) >= 2):
+                from . import larray
+                return larray.full(tuple(shape), fill, "float64" if dt is None else _np.dtype(dt).name)
             if has_sym(fill):
                 out = _np.empty(shape, dtype=object)
                 out.fill(fill) if not isinstance(fill, Sym) else None
@@ -332,6 +370,9 @@ class NPX(types.ModuleType):
             "isnan": _ew1(lambda v: False, lambda v: v != v, "isnan"),
             "isfinite": _ew1(lambda v: True, math.isfinite, "isfinite"),
             "arctan2": _arctan2,
+            "minimum": _minmax(True),
+            "maximum": _minmax(False),
+            "eye": _eye,
             "zeros": _creation("zeros"),
             "ones": _creation("ones"),
             "empty": _creation("empty"),
